@@ -1,5 +1,6 @@
 import NLE.Theorems.C02
 import NLE.Theorems.C12
+import NLE.Gen.Shape
 /-!
 # C07 — leadership is stable in fault-free operation
 
@@ -146,6 +147,25 @@ theorem no_health_demotion_when_healthy (m : Nat) (rs : List Bool) (hall : ∀ r
     subst this
     simp only [HB.healthDemoteAt, HB.onHealth]
     exact ih (fun r hr => hall r (List.mem_cons_of_mem _ hr)) 0 (idx + 1)
+
+/-- The leader-side decision of the watcher (leader/watcher.go `handleWatchEvent`): step down iff the notified record
+    names somebody else and is newer than the leader's own latest write. -/
+def watcherStepsDown (self ownRev evId evRev : Nat) : Bool := evId != self && decide (evRev > ownRev)
+
+/-- Late, duplicated or reordered notifications — any notification of a record version that is not newer than the
+    leader's own latest write, whoever it names — never demote the leader; neither does any notification of its own
+    record. -/
+theorem stale_or_own_notification_ignored (self ownRev evId evRev : Nat) (h : evRev ≤ ownRev ∨ evId = self) :
+    watcherStepsDown self ownRev evId evRev = false := by
+  unfold watcherStepsDown
+  rcases h with h | h
+  · have : ¬ evRev > ownRev := by omega
+    simp [this]
+  · simp [h]
+
+/-- That decision is the one in the source (regenerated fact), the follower-side observations are dropped while
+    leading, and exhausted acquisition rounds and failed attempts leave a leader alone. -/
+theorem watcher_shape : Gen.watcherComparesRevision = true ∧ Gen.observeLeaderGuarded = true ∧ Gen.roundChecksLeader = true := by decide
 
 /-- A refresh answered `ok` is classified as a success. -/
 theorem ok_answer_is_success (rev : Nat) (v : Option Val) : HB.outcomeOf (.ok rev v) = .ok := rfl
